@@ -489,7 +489,8 @@ async fn read_length_and_string<IO: RW>(io: &mut IO) -> Result<String, Error> {
     let len = io.read_u8().await.context("length")?;
     let mut buf = vec![0; len as usize];
     io.read_exact(&mut buf).await.context("data")?;
-    Ok(String::from_utf8_lossy(&buf).to_string())
+    // a field that is not UTF-8 is refused: a lossy conversion would turn it into a different name
+    String::from_utf8(buf).context("string field is not valid utf-8")
 }
 
 async fn read_null_terminated_string<IO: RW>(io: &mut IO) -> Result<String, Error> {
@@ -502,7 +503,7 @@ async fn read_null_terminated_string<IO: RW>(io: &mut IO) -> Result<String, Erro
     if buf.pop() != Some(0) {
         bail!("unterminated or oversized string field");
     }
-    Ok(String::from_utf8_lossy(&buf).to_string())
+    String::from_utf8(buf).context("string field is not valid utf-8")
 }
 
 pub mod frames {
